@@ -64,6 +64,7 @@ def plan(tier, seed):
         for first in range(len(STRETCH) ** 2):
             cases.append(dict(key=f"points/{item}/first={first}", kind="points", item=item, first=first, depth=3, seed=seed, cost=3))
     cases.append(dict(key="curve-records", kind="curve", seed=seed, depth=depth, cost=15))
+    cases.append(dict(key="ramp-tables/linsteps", kind="linsteps", seed=seed, depth=depth, cost=2))
     for ramped in RAMPED[1:]:
         cases.append(dict(key=f"ramped/{ramped}", kind="ramped", ramped=ramped, seed=seed, depth=3, cost=10))
     return cases
@@ -630,5 +631,39 @@ def run_points(case):
     return c.result(dict(case=case["key"], scalar_histories=len(sres), stretches=STRETCH))
 
 
+def run_linsteps(case):
+    """the tables the ramps are written with (math.linsteps): every milestone list of length 2..4 over a small alphabet x every
+    tuple of substep numbers per section over {1, 2, 3, 4} (and the scalar forms): the i-th value of the table is the i-th value
+    of the piecewise-linear history written with plain loops -- sections in order, evenly spaced, milestones at cumsum(num)"""
+    import felupe as fem
+
+    c = Ctx(case["key"])
+    alpha = [0.0, 0.3, 0.1, -0.2, 0.4]
+    for npts in (2, 3, 4):
+        for pts in itertools.permutations(alpha, npts):
+            if npts == 4 and pts[0] != 0.0:
+                continue
+            nums = [2] + [tuple(t) for t in itertools.product((1, 2, 3, 4), repeat=npts - 1)] + [[3] * (npts - 1)]
+            for num in nums:
+                nn = [num] * (npts - 1) if np.isscalar(num) else list(num)
+                want = []
+                for k in range(npts - 1):
+                    for j in range(nn[k]):
+                        want.append(pts[k] + j * (pts[k + 1] - pts[k]) / nn[k])
+                want.append(pts[-1])
+                got = np.asarray(fem.math.linsteps(list(pts), num=num if np.isscalar(num) else list(num)), dtype=float)
+                c.trans += 1
+                c.traces += 1
+                sub = f"points={list(pts)}/num={num}"
+                if got.shape != (len(want),) or np.abs(got - np.array(want)).max() > 1e-14:
+                    c.bad(sub, "ramp table of linsteps vs the piecewise-linear history written with loops (sections in order, evenly spaced)", got.tolist()[:12], want[:12], 1e-14)
+                    if len(c.viol) > 20:
+                        return c.result(dict(case=case["key"]))
+                else:
+                    c.nontrivial.append(sub) if len(c.nontrivial) < 400 else None
+                    c.seen[sub] = 1
+    return c.result(dict(case=case["key"]))
+
+
 def run(case):
-    return {"points": run_points, "history": run_history, "ramped": run_ramped, "curve": run_curve}[case["kind"]](case)
+    return {"points": run_points, "history": run_history, "ramped": run_ramped, "curve": run_curve, "linsteps": run_linsteps}[case["kind"]](case)
